@@ -247,6 +247,47 @@ func cmdWorkScan(args []string) error {
 			}
 		}
 	}
+	// (8) hashing that is paid per word by the instruction itself, measured as a difference: the same transaction with and
+	//     without a CREATE2 over 2^k bytes of memory that is already paid for (zero-filled init code = STOP).  What the
+	//     CREATE2 adds to the gas used must cover the keccak over its init code: 6 gas per word at least, wherever the
+	//     region starts.
+	measure := func(fork string, code []byte) (uint64, error, string) {
+		env := impl.NewEnv(impl.Opts{Fork: fork})
+		env.SetCode(self, code)
+		env.Prepare(&self)
+		var err error
+		var left uint64
+		const gas = 30_000_000
+		pan := impl.Guard(func() {
+			_, left, err = env.EVM.Call(context.Background(), vm.AccountRef(exCaller), self, nil, gas, big.NewInt(0))
+		})
+		return gas - left, err, pan
+	}
+	for _, fork := range []string{"Constantinople", "Berlin", "London"} {
+		for _, k := range []int{10, 14, 18, 19, 20} {
+			for _, off := range []uint64{0, 64, 1 << uint(k-1)} {
+				total := uint64(1) << uint(k)
+				expand := func() *asm.B { return asm.New().Push(1).Push(total - 1).Op(asm.MSTORE8) }
+				base, e0, p0 := measure(fork, expand().Op(asm.STOP).Bytes())
+				full, e1, p1 := measure(fork, expand().Push(7).Push(total-off).Push(off).Push(0).Op(0xf5).Op(asm.POP).Op(asm.STOP).Bytes())
+				cs := workCase{Idx: len(cases), What: fmt.Sprintf("CREATE2 hashing %d bytes of init code at offset %d (%s)", total-off, off, fork), K: k, Result: "ok"}
+				switch {
+				case p0 != "" || p1 != "":
+					cs.Result = "panic: " + p0 + p1
+					cs.Oracle = append(cs.Oracle, "C20: panic "+p0+p1)
+				case e0 != nil || e1 != nil:
+					cs.Result = fmt.Sprintf("err: %v / %v", e0, e1)
+				default:
+					cs.GasStep = full - base
+					if 6*(total-off) > 32*cs.GasStep {
+						cs.Oracle = append(cs.Oracle, fmt.Sprintf("C20: CREATE2 hashed %d bytes of init code (offset %d, memory already paid for) for %d gas", total-off, off, cs.GasStep))
+					}
+				}
+				stats["what:CREATE2 hashing"]++
+				cases = append(cases, cs)
+			}
+		}
+	}
 	if err := writeJSON(c.out, "cases.json", cases); err != nil {
 		return err
 	}
